@@ -76,11 +76,10 @@ def cvBody1 (c : CV.Content) (classes : Cls) (_s : PUnit) : Except PyErr (ForInS
 
 /-- the body of the inner loop of the uniqueness test -/
 def cvBody2 (c : CV.Content) (classes other_classes : Cls) (_s : PUnit) : Except PyErr (ForInStep PUnit) := do
-  if (classes == other_classes) then
-    return (ForInStep.yield PUnit.unit)
-  let intersect := ((CV.keysOf c classes).filter fun k => (CV.keysOf c other_classes).contains k)
-  if ((intersect).length != 0) then
-    throw PyErr.invalidExtension
+  if (classes != other_classes) then
+    let intersect := ((CV.keysOf c classes).filter fun k => (CV.keysOf c other_classes).contains k)
+    if ((intersect).length != 0) then
+      throw PyErr.invalidExtension
   pure (ForInStep.yield PUnit.unit)
 
 theorem cvBody1_eq (c : CV.Content) (h3 : 3 ≤ c.shape.length) (h6 : c.shape.length < 6) (cl : Cls)
@@ -117,10 +116,11 @@ theorem cvBody2_eq (c : CV.Content) (a b : Cls) (s : PUnit) :
   by_cases hab : a = b
   · simp [hab, pure, Except.pure]
   · have hne : (a == b) = false := by simp [hab]
+    have hnb : (a != b) = true := by simp [bne, hne]
     by_cases hf : ((CV.keysOf c a).filter fun k => (CV.keysOf c b).contains k) = []
     · have hall := (filter_nil_iff_all _ _).1 hf
       rw [hall]
-      simp only [hne, Bool.false_eq_true, if_false, hf, List.length_nil, bne_self_eq_false, Bool.or_true, if_true]
+      simp only [hne, hnb, Bool.false_eq_true, if_false, hf, List.length_nil, bne_self_eq_false, Bool.or_true, if_true]
       rfl
     · have hall : ((CV.keysOf c a).all fun k => !((CV.keysOf c b).contains k)) = false := by
         cases h : (CV.keysOf c a).all (fun k => !((CV.keysOf c b).contains k)) with
@@ -131,7 +131,7 @@ theorem cvBody2_eq (c : CV.Content) (a b : Cls) (s : PUnit) :
         | nil => exact absurd hfl hf
         | cons x xs => rfl
       rw [hall]
-      simp only [hne, Bool.false_eq_true, if_false, hl, if_true, Bool.or_false]
+      simp only [hne, hnb, Bool.false_eq_true, if_false, hl, if_true, Bool.or_false]
       rfl
 
 theorem check_valid_unfold (c : CV.Content) : Py.check_valid c = (do
